@@ -316,7 +316,7 @@ def impl_files(case):
         ids = {i for i, _ in case["effects"]}
     else:
         lines = lines[: len(case["effects"])]
-    open(d / "e.snplist", "w").write(C.text_ending(case, "e.snplist", "\n".join(lines) + "\n"))
+    open(d / "e.snplist", "w").write(("\n".join(lines) + ("\n" if C.plumb(case, "snplist-ending", 2) else "")))
     eff_file = d / "e.snplist"
     if case.get("hap_effects"):
         with open(d / "e.hap", "w") as f:
